@@ -145,7 +145,19 @@ def consumer(name, e, path, w_lo, depth):
     if name == 'nz/banks':
         w = (w_lo + '0' * 16)[:16]
         r = core.out(m('nz.bankaccount').info, w)
-        return None if r[0] == 'ok' and superset(r[1], props) else ('consumer:nz.bankaccount.info', r)
+        if not (r[0] == 'ok' and superset(r[1], props)):
+            return ('consumer:nz.bankaccount.info', r)
+        if depth >= 1:
+            # a registered branch must be usable: some account number of it validates (the checksum algorithm is chosen per
+            # bank in a table inside the module)
+            last = None
+            for base in range(1, 400):
+                acct = (w_lo + '0' * 6)[:6] + '%07d' % base + '000'
+                last = core.out(m('nz.bankaccount').validate, acct)
+                if last == ('ok', acct):
+                    return None
+            return ('consumer:nz.bankaccount.validate-accepts-no-account-of-the-branch', (w_lo, last))
+        return None
     if name == 'oui':
         w = (w_lo + '0' * 12)[:12]
         w = ':'.join(w[i:i + 2] for i in range(0, 12, 2))
